@@ -617,6 +617,120 @@ fn parse_c03_origin(o: &str) -> Option<ModuleSet> {
 /// Oracle: a keyword-less tag is explicit iff the module it is *written in* says EXPLICIT TAGS (X.680 31.2.7; the linker's copy
 /// does not change that); `automatic_tags` iff the including type is in an AUTOMATIC TAGS module and none of its own textual
 /// components is tagged (X.680 25.8: decided before the COMPONENTS OF transformation).
+/// Referenced types whose names begin with the letters of a tag keyword (`IMPLICITData`, `EXPLICIT-info`): `[0] IMPLICITData`
+/// is a keyword-less tag on a reference to that type, not `[0] IMPLICIT Data`. Exhaustive over tagging default x {SEQUENCE, SET,
+/// CHOICE} x four such names x {a shorter type named like the rest exists, does not exist}. Judged: the member's type is the
+/// referenced type, and the tag is explicit iff the module says EXPLICIT TAGS (the referenced types are not CHOICEs).
+fn c03_keyword_prefixed_names(rep: &mut Report) {
+    use crate::comp;
+    use crate::proj::Kind;
+    for (da, explicit_default) in [("EXPLICIT TAGS", true), ("IMPLICIT TAGS", false), ("AUTOMATIC TAGS", false)] {
+        for kw in ["SEQUENCE", "SET", "CHOICE"] {
+            for (n1, n2) in [("IMPLICITData", "EXPLICITData"), ("EXPLICITinfo", "IMPLICIT-x")] {
+                for decoy in [false, true] {
+                    let rest = |n: &str| n.trim_start_matches("IMPLICIT").trim_start_matches("EXPLICIT").trim_start_matches('-').to_string();
+                    let mut src = format!("Mk DEFINITIONS {da} ::= BEGIN\n{n1} ::= BOOLEAN\n{n2} ::= OCTET STRING\n");
+                    if decoy {
+                        for r in [rest(n1), rest(n2)] {
+                            if r.chars().next().is_some_and(|c| c.is_ascii_uppercase()) {
+                                src.push_str(&format!("{r} ::= INTEGER\n"));
+                            }
+                        }
+                    }
+                    src.push_str(&format!("Sk ::= {kw} {{ a [0] {n1}, b [1] {n2} }}\nEND\n"));
+                    let run = comp::rasn(&[src.clone()], &comp::Cfg::default_cfg());
+                    rep.evaluations += 1;
+                    let comp::Outcome::Ok { generated, warnings } = &run.out else {
+                        rep.count("keyword_prefixed_name_cases[not Ok]", 1);
+                        continue;
+                    };
+                    if !warnings.is_empty() {
+                        rep.count("keyword_prefixed_name_cases[warnings]", 1);
+                        continue;
+                    }
+                    let Ok(mods) = crate::proj::project(generated) else { continue };
+                    let Some(it) = mods.iter().find_map(|m| m.find("Sk")) else { continue };
+                    let members: Vec<(String, String, Option<crate::proj::Tag>)> = match &it.kind {
+                        Kind::Struct { fields, .. } => fields.iter().map(|f| (f.name.clone(), f.ty.clone(), f.attrs.tag())).collect(),
+                        Kind::Enum { variants } => variants.iter().map(|v| (v.name.clone(), v.payload.first().cloned().unwrap_or_default(), v.attrs.tag())).collect(),
+                        _ => continue,
+                    };
+                    rep.count("keyword_prefixed_name_cases_judged", 1);
+                    rep.nontrivial.insert(hash_str(&src));
+                    let origin = format!("keyword-prefixed-names({da},{kw},{n1},{n2},decoy={decoy})");
+                    for ((_, ty, tag), asn) in members.iter().zip([n1, n2]) {
+                        rep.count("tag_modes_compared", 1);
+                        let want_ty: String = asn.replace('-', "");
+                        let norm = |x: &str| x.replace('_', "").to_lowercase();
+                        if norm(ty) != norm(&want_ty) {
+                            rep.violations.push(Violation {
+                                sig: "c03|tag-keyword-read-out-of-a-type-name|member-type".into(),
+                                what: format!("`[n] {asn}` must be a reference to the type `{asn}`; the member has type `{ty}` [{origin}]"),
+                                replay: serde_json::json!({"origin": origin, "sources": [src.clone()]}),
+                            });
+                            continue;
+                        }
+                        match tag {
+                            Some(t) if t.explicit == explicit_default => {}
+                            got => rep.violations.push(Violation {
+                                sig: format!("c03|tag-keyword-read-out-of-a-type-name|mode|default={}", da.split(' ').next().unwrap()),
+                                what: format!("`[n] {asn}` carries no tag keyword: explicit={explicit_default} expected under {da}, emitted {got:?} [{origin}]"),
+                                replay: serde_json::json!({"origin": origin, "sources": [src.clone()]}),
+                            }),
+                        }
+                    }
+                }
+            }
+        }
+    }
+}
+
+/// Open types written as a type field of an information object class (`TYPE-IDENTIFIER.&Type`, `CQ.&Type`) under a tag: like
+/// ANY they are always tagged explicitly (X.680 31.2.7 c). Exhaustive over tagging default x {no keyword, EXPLICIT} x two
+/// classes x {SEQUENCE component, SET component, CHOICE alternative, type assignment}.
+fn c03_open_type_fields(rep: &mut Report) {
+    use crate::comp;
+    use crate::proj::Kind;
+    for da in ["EXPLICIT TAGS", "IMPLICIT TAGS", "AUTOMATIC TAGS"] {
+        for kwd in ["", "EXPLICIT "] {
+            for field in ["TYPE-IDENTIFIER.&Type", "CQ.&Type"] {
+                let src = format!(
+                    "Mo DEFINITIONS {da} ::= BEGIN\nCQ ::= CLASS {{ &id INTEGER UNIQUE, &Type }}\nSo ::= SEQUENCE {{ a [0] INTEGER, b [1] {kwd}{field} }}\nSt ::= SET {{ a [0] INTEGER, b [1] {kwd}{field} }}\nCo ::= CHOICE {{ a [0] INTEGER, b [1] {kwd}{field} }}\nTo ::= [5] {kwd}{field}\nEND\n"
+                );
+                let run = comp::rasn(&[src.clone()], &comp::Cfg::default_cfg());
+                rep.evaluations += 1;
+                let comp::Outcome::Ok { generated, warnings } = &run.out else {
+                    rep.count("open_type_field_cases[not Ok]", 1);
+                    continue;
+                };
+                let Ok(mods) = crate::proj::project(generated) else { continue };
+                for (name, pos) in [("So", "sequence-component"), ("St", "set-component"), ("Co", "choice-alternative"), ("To", "type-assignment")] {
+                    if warnings.iter().any(|w| w.contains(name)) {
+                        continue;
+                    }
+                    let Some(it) = mods.iter().find_map(|m| m.find(name)) else { continue };
+                    let tag = match &it.kind {
+                        Kind::Struct { fields, tuple: false } => fields.iter().find(|f| f.name == "b").and_then(|f| f.attrs.tag()),
+                        Kind::Enum { variants } => variants.iter().find(|v| v.name == "b").and_then(|v| v.attrs.tag()),
+                        _ => it.attrs.tag(),
+                    };
+                    rep.count("tag_modes_compared", 1);
+                    rep.count("open_type_field_tags_judged", 1);
+                    rep.nontrivial.insert(hash_str(&format!("{src}|{name}")));
+                    match tag {
+                        Some(t) if t.explicit => {}
+                        got => rep.violations.push(Violation {
+                            sig: format!("c03|implicit-expected-explicit|open-type-class-field|{pos}|default={}", da.split(' ').next().unwrap()),
+                            what: format!("{name}: `[n] {kwd}{field}` is a tagged open type and must be tagged explicitly ({da}), emitted {got:?}"),
+                            replay: serde_json::json!({"origin": format!("open-type-fields({da},{kwd},{field})"), "sources": [src.clone()]}),
+                        }),
+                    }
+                }
+            }
+        }
+    }
+}
+
 fn c03_copied_components(rep: &mut Report) {
     use crate::comp;
     // a tagged type assignment that only *becomes* a CHOICE while linking (instance of a parameterized CHOICE, selection of an
@@ -756,6 +870,8 @@ pub fn run_c03(ctx: &Ctx) -> Report {
     let n = ctx.pick(3_000u64, 60_000);
     let mut rep = cmodel::run_random(ctx, "C03", 300, n, &g_opts_types(), rep);
     c03_copied_components(&mut rep);
+    c03_keyword_prefixed_names(&mut rep);
+    c03_open_type_fields(&mut rep);
     // DER level (O6): the generated bindings decode model-made DER bytes of sample values and encode them back
     if std::env::var("VERIF_NO_DER").is_err() {
         crate::c03der::run(ctx, &mut rep);
